@@ -260,13 +260,21 @@ role newVal(ctx context.Context, v recvdVal, better bool) bool in (dht *IpfsDHT)
   pure
 
 func (dht *IpfsDHT) processValues(ctx context.Context, key string, vals <-chan recvdVal, newVal func(ctx context.Context, v recvdVal, better bool) bool) (best []byte, peersWithBest map[peer.ID]struct{}, aborted bool)
-  props C04 C06
+  props C04 C06 C03
   ghostvar $sel bool = false
   ghostvar $wasNil bool = false
   modifies nothing
   loop 0 invariant imp(best != nil, peersWithBest != nil) && (peersWithBest == nil || fresh(peersWithBest))
   ghost at call(Select): $sel = ($ret1 == nil && $ret0 == 1 && len($arg1) == 2 && $arg1[0] == best && $arg1[1] == v.Val && $arg0 == key)
   ghost at assign(peersWithBest): $wasNil = (best == nil)
+  # C03: once the callback asked to stop, no further value is handed to it
+  # (the quorum callback closes its stop channel when it asks to stop: a
+  # second request would close it twice) - its answer is never dropped
+  ghostvar $stop bool = false
+  loop 0 invariant [internal-callback-stop-is-honoured] $stop == aborted
+  ensures [internal-callback-stop-is-reported] imp($stop, aborted)
+  ghost at before call(newVal): assert(!$stop)
+  ghost at call(newVal): $stop = $ret0
   ghost at before call(newVal)#0: assert(!$arg2 && $arg1 == v && has(peersWithBest, v.From))
   ghost at before call(newVal)#1: assert(!$arg2 && $arg1 == v)
   ghost at before call(newVal)#2: assert($arg2 && $arg1 == v && best == v.Val); assert($wasNil || $sel); assert(len(peersWithBest) == 1 && has(peersWithBest, v.From))
@@ -394,6 +402,55 @@ func (dht *IpfsDHT) FindPeer(ctx context.Context, id peer.ID) (pi peer.AddrInfo,
   # configuration invariant of a constructed instance (immutable fields; ASSUMED here, it is a `requires` on the internal functions)
   ghost at entry: assume(cfgOK(dht))
 
+# C06/C05: the local store's verdict is passed on unchanged - PutValue relies
+# on it to stop before the network phase when the store refused the record.
+func (dht *IpfsDHT) putLocal(ctx context.Context, key string, rec *recpb.Record) error
+  props C06 C05
+  requires rec != nil && str(rec.Key) == key
+  ghostvar $verdict error = nil
+  ghostvar $asked bool = false
+  modifies *
+  ensures [internal-store-verdict-passed-on] $asked && result == $verdict
+  ghost at before call(Put): assert($arg1 == key && $arg2 == rec)
+  ghost at call(Put): $verdict = $ret0; $asked = true
+
+func (dht *IpfsDHT) getLocal(ctx context.Context, key string) (*recpb.Record, error)
+  props C06 C05
+  ghostvar $rec *recpb.Record = nil
+  ghostvar $gerr error = nil
+  modifies *
+  ensures [internal-store-answer-passed-on] imp(result1 == nil, result0 == $rec && $gerr == nil)
+  ghost at before call(Get): assert($arg1 == key)
+  ghost at call(Get): $rec = $ret0; $gerr = $ret1
+
+# C04 (public keys): a key returned for a peer hashes to that peer's ID. The
+# direct path checks it itself; the DHT path relies on the /pk validator that
+# GetValue applies (ASSUMED: trusted contract).
+func (dht *IpfsDHT) getPublicKeyFromNode(ctx context.Context, p peer.ID) (ci.PubKey, error)
+  props C04
+  modifies *
+  ensures [key-hashes-to-the-peer] imp(result1 == nil, result0 != nil && pkid(result0) == p)
+
+func (dht *IpfsDHT) getPublicKeyFromDHT(ctx context.Context, p peer.ID) (ci.PubKey, error)
+  trusted
+  modifies *
+  ensures imp(result1 == nil, result0 != nil && pkid(result0) == p)
+
+func (dht *IpfsDHT) GetPublicKey(ctx context.Context, p peer.ID) (ci.PubKey, error)
+  props C04
+  chan_inv resp : imp($msg.err == nil, $msg.pubk != nil && pkid($msg.pubk) == p)
+  modifies *
+  ensures [key-hashes-to-the-peer] imp(result1 == nil, result0 != nil && pkid(result0) == p)
+  loop 0 invariant imp($key > 0, err != nil)
+
+funclit 0 in (dht *IpfsDHT) GetPublicKey(ctx context.Context, p peer.ID) (ci.PubKey, error)
+  props C04
+  chan_inv resp : imp($msg.err == nil, $msg.pubk != nil && pkid($msg.pubk) == p)
+
+funclit 1 in (dht *IpfsDHT) GetPublicKey(ctx context.Context, p peer.ID) (ci.PubKey, error)
+  props C04
+  chan_inv resp : imp($msg.err == nil, $msg.pubk != nil && pkid($msg.pubk) == p)
+
 func (dht *IpfsDHT) newOptimisticState(ctx context.Context, key string) (*optimisticState, error)
   props C06
   modifies nothing
@@ -412,6 +469,9 @@ func (dht *IpfsDHT) optimisticProvide(outerCtx context.Context, keyMH multihash.
   ghost at call(putCtxCancel): $cancelled = true
   ghost at call(runLookupWithFollowup): $lookupOK = ($ret1 == nil)
   ghost at go(putProviderRecord): assert(!has(es.peerStates, $arg0) && $arg0 == p)
+  # returnThreshold starts as ceil(0.75*K) >= 1 (float arithmetic is not modelled) and is only ever lowered to the
+  # number of issued RPCs when that is >= 1 (waitForRPCs, proved): ASSUMED here
+  ghost at before call(waitForRPCs): assume(es.returnThreshold >= 1)
 
 func (os *optimisticState) putProviderRecord(pid peer.ID)
   props C06 C03
@@ -421,10 +481,15 @@ func (os *optimisticState) putProviderRecord(pid peer.ID)
   ghost at call(FilteredAddrs): $addrs = $ret0
   ghost at before call(PutProviderAddrs): assert($arg1 == pid && str($arg2) == os.key && $arg3.ID == os.dht.self && $arg3.Addrs == $addrs)
 
+# The early-return wait asks for no more completions than RPCs were issued
+# (otherwise it would wait for completions that never come - doneChan is not
+# closed on that path) and for at least one.
 func (os *optimisticState) waitForRPCs()
   props C03
+  requires os.returnThreshold >= 1
   modifies *
   loop 0 invariant [a-completion-is-owed] rpcCount >= 1
+  loop 0 invariant [threshold-within-issued-rpcs] 1 <= os.returnThreshold && os.returnThreshold <= rpcCount
 
 # ---- provider search (C08) ---------------------------------------------------------
 role psTryAdd(p peer.AddrInfo) bool in (dht *IpfsDHT) findProvidersAsyncRoutine(ctx context.Context, key multihash.Multihash, count int, peerOut chan peer.AddrInfo)
